@@ -93,11 +93,31 @@ template<class C> static void observe(C& c, const char* ret, unsigned long cmps)
   {
     printf(" |");
     unsigned long n = 0, h = 0;
+    bool okAcc = true;
+    const C& cc = c;
     for(typename C::Iterator i = c.begin(), end = c.end(); i != end; ++i, ++n)
     {
       printf(" %d:%d", i.key().k, *i);
       h = h * 31 + (unsigned long)(unsigned)i.key().k * 7 + (unsigned long)(unsigned)*i;
+      // the other accessors of Iterator: const / non-const operator* and operator->, the const ++ / -- that return a
+      // new iterator, operator== / != in both directions
+      const typename C::Iterator ci = i;
+      typename C::Iterator nx = ++ci, same = i;
+      ++same;
+      if(&*ci != &*i || ci.operator->() != &*ci || i.operator->() != &*i || !(nx == same) || nx != same || !(ci == i))
+        okAcc = false;
+      typename C::Iterator back = --nx;   // const -- on a const copy
+      { const typename C::Iterator cn = same; back = --cn; }
+      if(back != i)
+        okAcc = false;
     }
+    // const overloads of begin / end / front / back / size / isEmpty
+    if(cc.begin() != c.begin() || cc.end() != c.end() || cc.size() != c.size() || cc.isEmpty() != c.isEmpty())
+      okAcc = false;
+    if(n && (&cc.front() != &c.front() || &cc.back() != &c.back() || &c.front() != &*c.begin()))
+      okAcc = false;
+    if(!okAcc)
+      printf(" ACCESSOR-MISMATCH");
     // the prev links must thread the same sequence backwards, and isEmpty() must agree with size()
     unsigned long nb = 0, pw = 1, hb = 0;
     for(typename C::Iterator i = c.end(), b = c.begin(); i != b && nb <= n; ++nb)
